@@ -569,6 +569,19 @@ func (w *World) streamOp(ci int, conn *rpc.Conn, op *Op) {
 		if rec.stream == nil {
 			return
 		}
+		if op.Bad == "encode" {
+			// a message the codec cannot encode: only this write may be affected
+			var arg interface{} = &Msg{ID: badMarshalID}
+			switch w.P.Codec {
+			case "pb":
+				arg = &PBMsg{ID: badMarshalID}
+			case "json":
+				arg = make(chan int)
+			}
+			rec.stream.WriteMessage(arg)
+			w.Probe("unencodable-stream-message")
+			return
+		}
 		for i := 0; i < op.N; i++ {
 			n := len(rec.CSent)
 			id := uint64(op.Stream)<<32 | uint64(n+1)
